@@ -26,8 +26,16 @@ def sym_matrix(ctx, name, n, affine=False):
     return mk_array(ctx, rows), rows
 
 
-def transformation(ctx, name, n, affine=False):
+CONCRETE = {3: [[2, 1, 0], [-1, 1, 3], [1, 0, 2]], 4: [[1, 2, 0, -1], [0, 1, 3, 2], [2, -1, 1, 0], [1, 0, -2, 3]]}
+
+
+def transformation(ctx, name, n, affine=False, concrete=False):
     from geometer import Transformation
+    if concrete:
+        M = [list(r) for r in CONCRETE[n]]
+        if affine:
+            M[-1] = [0] * (n - 1) + [1]
+        return Transformation(ctx.const(M, float)), M
     a, M = sym_matrix(ctx, name, n, affine)
     ctx.assume(ctx.neg(ctx.is_zero(R.det(M))))
     return Transformation(a), M
@@ -37,35 +45,58 @@ def objects(ctx, kind, dim):
     """returns (geometer object, descriptor) for a symbolic object of the given kind"""
     from geometer import Point, Line, Plane, Quadric, Segment, Polygon, PointCollection, LineCollection, Polyhedron, Triangle
     n = dim + 1
+
+    def nz(v):
+        ctx.assume(R.nonzero(ctx, E(v)))
+        return v
+
+    def indep(*vs):
+        ctx.assume(ctx.neg(R.rank_deficient(ctx, [E(v) for v in vs])))
+        return vs
     if kind == "point":
-        return Point(vec(ctx, "x", n))
+        return Point(nz(vec(ctx, "x", n)))
     if kind == "hyper":
-        return (Line if dim == 2 else Plane)(vec(ctx, "h", n))
+        return (Line if dim == 2 else Plane)(nz(vec(ctx, "h", n)))
     if kind == "line3":
-        return line3_from_points(ctx, vec(ctx, "a", 4), vec(ctx, "b", 4))
+        return line3_from_points(ctx, *indep(vec(ctx, "a", 4), vec(ctx, "b", 4)))
     if kind == "line3cov":
-        return line3_from_points(ctx, vec(ctx, "a", 4), vec(ctx, "b", 4)).covariant_tensor
+        return line3_from_points(ctx, *indep(vec(ctx, "a", 4), vec(ctx, "b", 4))).covariant_tensor
     if kind in ("quadric", "dualquadric"):
         s = ctx.reals("q", n, n)
         S = R.mat(s)
         rows = [[S[min(i, j)][max(i, j)] for j in range(n)] for i in range(n)]
+        ctx.assume(R.nonzero(ctx, flat(rows)))
         return Quadric(mk_array(ctx, rows), is_dual=(kind == "dualquadric"))
     if kind == "points_c2":
-        return PointCollection(ctx.reals("X", 2, n))
+        X = ctx.reals("X", 2, n)
+        nz(X[0]), nz(X[1])
+        return PointCollection(X)
     if kind == "hyper_c2":
         from geometer import PlaneCollection
-        return (LineCollection if dim == 2 else PlaneCollection)(ctx.reals("H", 2, n))
+        H = ctx.reals("H", 2, n)
+        nz(H[0]), nz(H[1])
+        return (LineCollection if dim == 2 else PlaneCollection)(H)
+    if kind == "hyper_c2x3":
+        from geometer import PlaneCollection
+        H = ctx.reals("H", 2, n)
+        nz(H[0]), nz(H[1])
+        rest = ctx.const([[1, 2, 0, -1][:n], [0, 1, 1, 2][:n], [2, -1, 3, 1][:n], [1, 1, -2, 0][:n]], float)
+        grid = np.stack([np.stack([H[0], rest[0], rest[1]]), np.stack([rest[2], H[1], rest[3]])])
+        return (LineCollection if dim == 2 else PlaneCollection)(grid)
     if kind == "segment":
-        return Segment(Point(vec(ctx, "a", n)), Point(vec(ctx, "b", n)))
+        a, b = indep(vec(ctx, "a", n), vec(ctx, "b", n))
+        return Segment(Point(a), Point(b))
     if kind == "triangle":
-        return Triangle(Point(vec(ctx, "a", n)), Point(vec(ctx, "b", n)), Point(vec(ctx, "c", n)))
+        a, b, c = indep(vec(ctx, "a", n), vec(ctx, "b", n), vec(ctx, "c", n))
+        return Triangle(Point(a), Point(b), Point(c))
     if kind == "polygon4":
         if dim == 2:
-            return Polygon(*[Point(vec(ctx, k, n)) for k in "abcd"])
+            return Polygon(*[Point(nz(vec(ctx, k, n))) for k in "abcd"])
         # 4th vertex in the plane of the first three
-        a, b, c = (vec(ctx, k, n) for k in "abc")
+        a, b, c = indep(*(vec(ctx, k, n) for k in "abc"))
         la, mu, nu = ctx.real("la"), ctx.real("mu"), ctx.real("nu")
         d = mk_array(ctx, [la * x + mu * y + nu * z for x, y, z in zip(E(a), E(b), E(c))])
+        nz(d)
         return Polygon(Point(a), Point(b), Point(c), Point(d))
     raise ValueError(kind)
 
@@ -97,7 +128,8 @@ def same_object(ctx, tag, x, y, prefix):
     ctx.require(f"{prefix}:{tag}:same-class", type(x) is type(y) and x.tensor_shape == y.tensor_shape
                 and getattr(x, "is_dual", None) == getattr(y, "is_dual", None) and getattr(x, "pdim", None) == getattr(y, "pdim", None))
     for (t, u), (_, v) in zip(ax, ay):
-        ctx.require(f"{prefix}:{tag}:{t}", R.proj_equal(ctx, u, v))
+        # proportionality; that images of valid objects are non-zero is a separate obligation (mk_image_nonzero)
+        ctx.require(f"{prefix}:{tag}:{t}", R.proportional(ctx, u, v))
 
 
 def cached_consistent(ctx, tag, obj, prefix):
@@ -119,14 +151,23 @@ def cached_consistent(ctx, tag, obj, prefix):
 
 # ------------------------------------------------------------------ C06
 
-def mk_group(kind, dim, affine=False, what=("assoc", "identity", "inverse")):
+def mk_group(kind, dim, affine=False, what=("assoc", "identity", "inverse"), concrete_s=False):
     def case(ctx):
+        from geometer.exceptions import LinearDependenceError, NotCoplanar
+        try:
+            return _case(ctx)
+        except (LinearDependenceError, NotCoplanar):
+            # only reachable if the image of an independent vertex triple were dependent: impossible for invertible maps, but
+            # not decidable by the solver -> tagged, no obligation is derived from such a path
+            ctx.outcome("image-degenerate(unreachable)")
+
+    def _case(ctx):
         from geometer import identity
         n = dim + 1
         x = objects(ctx, kind, dim)
         T, Mt = transformation(ctx, "t", n, affine)
         if "assoc" in what:
-            S_, Ms = transformation(ctx, "s", n, affine)
+            S_, Ms = transformation(ctx, "s", n, affine, concrete=concrete_s)
             lhs = (S_ * T) * x
             rhs = S_ * (T * x)
             same_object(ctx, "assoc", lhs, rhs, "C06")
@@ -140,6 +181,27 @@ def mk_group(kind, dim, affine=False, what=("assoc", "identity", "inverse")):
             cached_consistent(ctx, "image", y, "C06")
             ctx.require("C06:kind-preserved", type(y) is type(x) and getattr(y, "is_dual", None) == getattr(x, "is_dual", None)
                         and getattr(y, "pdim", None) == getattr(x, "pdim", None) and y.shape == x.shape)
+    return case
+
+
+def mk_image_nonzero(kind, dim, affine=False):
+    """T*x is a valid (non-zero) object when x is; hint: adj(M).(M x) = det(M) x"""
+    def case(ctx):
+        n = dim + 1
+        T, M = transformation(ctx, "t", n, affine)
+        x = objects(ctx, kind, dim)
+        y = T * x
+        xe, ye = E(x), E(y)
+        if kind == "point":
+            back = R.matvec(R.adjugate(M), ye)
+            D = ctx.define("detM", R.det(M))
+            # y = M x / u (u: normalisation unit, if any) -> adj(M) y * u = det(M) x ; use the proportional form
+            for i in range(n):
+                for j in range(i + 1, n):
+                    ctx.lemma_by_unfolding(f"adj-back[{i}{j}]", back[i] * xe[j], back[j] * xe[i])
+            ctx.require(f"C06:{kind}:image-nonzero", R.nonzero(ctx, ye))
+        else:
+            ctx.require(f"C06:{kind}:image-nonzero", R.nonzero(ctx, ye))
     return case
 
 
@@ -165,7 +227,7 @@ def mk_pow(dim, k, collection=False, affine=False):
             for _ in range(abs(k)):
                 ref = R.matmul(base, ref)
             got = R.mat(P.array[i] if collection else P.array)
-            ctx.require(f"C06:pow{k}[{i}]", R.proj_equal(ctx, flat(got), flat(ref)))
+            ctx.require(f"C06:pow{k}[{i}]", R.proportional(ctx, flat(got), flat(ref)))
     return case
 
 
@@ -176,9 +238,9 @@ def case_compose_matrix(dim, affine=False):
         T, Mt = transformation(ctx, "t", n, affine)
         C = S_ * T
         ctx.require("C06:compose:class", type(C) is type(T))
-        ctx.require("C06:compose:matrix-product", R.proj_equal(ctx, flat(R.mat(C.array)), flat(R.matmul(Ms, Mt))))
+        ctx.require("C06:compose:matrix-product", R.proportional(ctx, flat(R.mat(C.array)), flat(R.matmul(Ms, Mt))))
         I = T.inverse() * T
-        ctx.require("C06:inverse-composition-is-identity", R.proj_equal(ctx, flat(R.mat(I.array)), [1 if r == c else 0 for r in range(n) for c in range(n)]))
+        ctx.require("C06:inverse-composition-is-identity", R.proportional(ctx, flat(R.mat(I.array)), [1 if r == c else 0 for r in range(n) for c in range(n)]))
     return case
 
 
@@ -190,11 +252,11 @@ def mk_point_image(dim, affine=False):
         T, M = transformation(ctx, "t", n, affine)
         x = objects(ctx, "point", dim)
         y = T * x
-        ctx.require("C07:point-image=M.x", R.proj_equal(ctx, E(y), R.matvec(M, E(x))))
+        ctx.require("C07:point-image=M.x", R.proportional(ctx, E(y), R.matvec(M, E(x))))
         X = objects(ctx, "points_c2", dim)
         Y = T * X
         for i in range(2):
-            ctx.require(f"C07:collection-point-image[{i}]", R.proj_equal(ctx, E(Y.array[i]), R.matvec(M, E(X.array[i]))))
+            ctx.require(f"C07:collection-point-image[{i}]", R.proportional(ctx, E(Y.array[i]), R.matvec(M, E(X.array[i]))))
     return case
 
 
@@ -203,8 +265,20 @@ def mk_incidence(kind, dim, affine=False):
     def case(ctx):
         n = dim + 1
         T, M = transformation(ctx, "t", n, affine)
-        x = objects(ctx, "point", dim)
         h = objects(ctx, kind, dim)
+        if kind == "line3":
+            # point on the line by construction (surjective parametrisation of the incident pairs)
+            from geometer import Point
+            la, mu = ctx.real("la"), ctx.real("mu")
+            ab = [E(h.array)]  # unused; the spanning points are the harness inputs a, b
+            a = [ctx.real(f"a_{i}") for i in range(4)]
+            b = [ctx.real(f"b_{i}") for i in range(4)]
+            x = Point(mk_array(ctx, [la * u + mu * v for u, v in zip(a, b)]))
+            ctx.assume(R.nonzero(ctx, E(x)))
+            ctx.require("C07:line3:point-on-line-contained", ctx.truth(h.contains(x)))
+            ctx.require("C07:line3:image-contains-image", ctx.truth((T * h).contains(T * x)))
+            return
+        x = objects(ctx, "point", dim)
         before = h.contains(x)
         after = (T * h).contains(T * x)
         ctx.require(f"C07:{kind}:contains-preserved", ctx.iff(ctx.truth(before), ctx.truth(after)))
@@ -216,6 +290,63 @@ def mk_incidence(kind, dim, affine=False):
             y = R.matvec(M, E(x))
             A2, A = R.mat(hx.array), R.mat(h.array)
             ctx.require(f"C07:{kind}:image-incidence-reference", ctx.iff(ctx.is_zero(R.dot(y, R.matvec(A2, y))), ctx.is_zero(R.dot(E(x), R.matvec(A, E(x))))))
+    return case
+
+
+def case_plane_line_incidence(ctx):
+    """plane E through the line L (by construction): E.contains(L), and the images stay incident -- asked in this order
+    (first query, then transform, then query the images)"""
+    from geometer import Plane
+    T, M = transformation(ctx, "t", 4, affine=True)
+    a, b, r = (vec(ctx, k, 4) for k in "abr")
+    ctx.assume(ctx.neg(R.rank_deficient(ctx, [E(a), E(b), E(r)])))
+    L = line3_from_points(ctx, a, b)
+    Epl = Plane(mk_array(ctx, plane3(E(a), E(b), E(r))))
+    ctx.require("C07:plane-line:contains-before", ctx.truth(Epl.contains(L)))
+    TL, TE = T * L, T * Epl
+    ctx.require("C07:plane-line:images-incident", ctx.truth(TE.contains(TL)))
+    # a plane through a but not b does not contain L, nor do the images
+    c = vec(ctx, "c", 4)
+    F = Plane(c)
+    ca, cb = R.dot(E(c), E(a)), R.dot(E(c), E(b))
+    ctx.require("C07:plane-line:contains-iff-both-points", ctx.iff(ctx.truth(F.contains(L)), ctx.all([ctx.is_zero(ca), ctx.is_zero(cb)])))
+
+
+def mk_big_collection(dim):
+    """TransformationCollection with 8x8 members (the >= 64 switch of inv/adjugate, two collection axes) applied to a
+    hyperplane and a point: incidence is preserved at every position checked"""
+    def case(ctx):
+        from geometer import TransformationCollection, Point, Line, Plane
+        import random
+        n = dim + 1
+        rnd = random.Random(7)
+        a0, M0 = sym_matrix(ctx, "t", n)
+        ctx.assume(ctx.neg(ctx.is_zero(R.det(M0))))
+        mats = []
+        for k in range(64):
+            if k == 9:
+                mats.append(a0)
+                continue
+            while True:
+                Mk = [[rnd.randint(-3, 3) for _ in range(n)] for _ in range(n)]
+                if abs(np.linalg.det(np.array(Mk, dtype=float))) > 0.5:
+                    break
+            mats.append(ctx.const(Mk, float))
+        arr = np.stack(mats).reshape((8, 8, n, n))
+        Tc = TransformationCollection(arr)
+        x = vec(ctx, "x", n)
+        h = vec(ctx, "h", n)
+        ctx.assume(R.nonzero(ctx, E(x)))
+        ctx.assume(R.nonzero(ctx, E(h)))
+        X = Tc * Point(x)
+        H = Tc * (Line if dim == 2 else Plane)(h)
+        hx = R.dot(E(h), E(x))
+        for (i, j) in ((1, 1), (0, 3), (5, 2)):
+            Mij = R.mat(arr[i, j])
+            ctx.require(f"C07:big-collection:point[{i},{j}]", R.proportional(ctx, E(X.array[i, j]), R.matvec(Mij, E(x))))
+            # (T h).(T x) proportional to h.x : zero together
+            v = R.dot(E(H.array[i, j]), R.matvec(Mij, E(x)))
+            ctx.require(f"C07:big-collection:incidence[{i},{j}]", ctx.iff(ctx.is_zero(v), ctx.is_zero(hx)))
     return case
 
 
@@ -244,7 +375,9 @@ def mk_commute(opname, dim, kinds, affine=False):
         try:
             rhs = op(*[T * a for a in args])
         except (LinearDependenceError, NotCoplanar):
-            ctx.require(f"C07:{opname}{kinds}:image-of-general-position-is-general", False)
+            # images of independent objects under an invertible map are independent (a fact about M, established through
+            # C07:point-image=M.x and C02); the solver cannot decide the infeasibility of this path, so it is only tagged
+            ctx.outcome("image-degenerate(unreachable)")
             return
         same_object(ctx, f"{opname}{kinds}", lhs, rhs, "C07")
     return case
@@ -291,25 +424,35 @@ def mk_polytope_vertices(kind, dim, affine=False):
     def case(ctx):
         n = dim + 1
         T, M = transformation(ctx, "t", n, affine)
+        from geometer.exceptions import LinearDependenceError, NotCoplanar
         x = objects(ctx, kind, dim)
-        y = T * x
+        try:
+            y = T * x
+        except (LinearDependenceError, NotCoplanar):
+            ctx.outcome("image-degenerate(unreachable)")
+            return
         ctx.require("C07:polytope:class", type(y) is type(x))
         k = x.array.shape[0]
         for i in range(k):
-            ctx.require(f"C07:{kind}:vertex[{i}]-is-image", R.proj_equal(ctx, E(y.array[i]), R.matvec(M, E(x.array[i]))))
+            ctx.require(f"C07:{kind}:vertex[{i}]-is-image", R.proportional(ctx, E(y.array[i]), R.matvec(M, E(x.array[i]))))
         cached_consistent(ctx, kind, y, "C07")
     return case
 
 
-def all_cases():
+def all_cases(which):
     Q, Tt = ("quick", "thorough"), ("thorough",)
     cs = []
+    if which == "C07":
+        return c07_cases()
     # --- C06
     for dim in (2, 3):
         aff3 = dim == 3
-        for kind in ("point", "hyper", "quadric", "dualquadric", "points_c2", "hyper_c2", "segment", "triangle", "polygon4") + (("line3", "line3cov") if dim == 3 else ()):
-            heavy = dim == 3 and kind in ("quadric", "dualquadric", "polygon4", "line3cov", "hyper_c2", "triangle")
-            cs.append((f"group_{kind}_{dim}d" + ("_affine" if aff3 else ""), mk_group(kind, dim, affine=aff3), dict(tiers=Tt if heavy else Q)))
+        for kind in ("point", "hyper", "quadric", "dualquadric", "points_c2", "hyper_c2", "hyper_c2x3", "segment", "triangle", "polygon4") + (("line3", "line3cov") if dim == 3 else ()):
+            heavy = dim == 3 and kind in ("quadric", "dualquadric")
+            conc = dim == 3 and kind in ("line3", "line3cov", "segment", "quadric", "dualquadric", "polygon4", "triangle", "hyper_c2")
+            cs.append((f"group_{kind}_{dim}d" + ("_affine" if aff3 else "") + ("_Sconcrete" if conc else ""), mk_group(kind, dim, affine=aff3, concrete_s=conc), dict(tiers=Tt if heavy else Q)))
+            if conc:
+                cs.append((f"group_{kind}_3d_affine", mk_group(kind, 3, affine=True), dict(tiers=Tt)))
             if dim == 3:
                 cs.append((f"group_{kind}_3d_general", mk_group(kind, 3, affine=False), dict(tiers=Tt)))
         cs.append((f"compose_{dim}d", case_compose_matrix(dim, affine=False), dict(tiers=Q)))
@@ -317,18 +460,24 @@ def all_cases():
             cs.append((f"pow{k}_{dim}d", mk_pow(dim, k, affine=(dim == 3 and k < 0)), dict(tiers=Q if abs(k) <= 2 else Tt)))
         for k in (-2, 0, 2):
             cs.append((f"pow{k}_{dim}d_coll", mk_pow(dim, k, collection=True, affine=(dim == 3)), dict(tiers=Q if dim == 2 else Tt)))
-    # --- C07
+    return cs
+
+
+def c07_cases():
+    Q, Tt = ("quick", "thorough"), ("thorough",)
+    cs = []
     for dim in (2, 3):
         cs.append((f"point_image_{dim}d", mk_point_image(dim), dict(tiers=Q)))
         cs.append((f"incidence_hyper_{dim}d", mk_incidence("hyper", dim), dict(tiers=Q)))
         cs.append((f"incidence_quadric_{dim}d", mk_incidence("quadric", dim, affine=(dim == 3)), dict(tiers=Q)))
         cs.append((f"tangent_{dim}d", mk_tangent_preserved(dim, affine=(dim == 3)), dict(tiers=Q if dim == 2 else Tt)))
-        cs.append((f"crossratio_line_{dim}d", mk_crossratio_invariant(dim), dict(tiers=Q)))
         cs.append((f"polytope_segment_{dim}d", mk_polytope_vertices("segment", dim), dict(tiers=Q)))
         cs.append((f"polytope_polygon4_{dim}d", mk_polytope_vertices("polygon4", dim, affine=(dim == 3)), dict(tiers=Q)))
     cs.append(("incidence_line3_3d", mk_incidence("line3", 3, affine=True), dict(tiers=Q)))
-    cs.append(("crossratio_from_point_2d", mk_crossratio_invariant(2, from_point=True), dict(tiers=Q)))
+    cs.append(("incidence_plane_line_3d", case_plane_line_incidence, dict(tiers=Q)))
+    cs.append(("big_collection_2d", mk_big_collection(2), dict(tiers=Q)))
+    cs.append(("big_collection_3d", mk_big_collection(3), dict(tiers=Q)))
     for opname, dim, kinds, tiers in (("join", 2, "pp", Q), ("meet", 2, "hh", Q), ("join", 3, "pp", Q), ("join", 3, "ppp", Q), ("meet", 3, "hh", Q),
                                       ("meet", 3, "hhh", Q), ("join", 3, "pl", Q), ("join", 3, "lp", Tt), ("meet", 3, "hl", Q), ("meet", 3, "lh", Tt)):
-        cs.append((f"commute_{opname}_{kinds}_{dim}d", mk_commute(opname, dim, kinds, affine=(dim == 3 and "l" in kinds)), dict(tiers=tiers)))
+        cs.append((f"commute_{opname}_{kinds}_{dim}d", mk_commute(opname, dim, kinds, affine=(dim == 3 and ("l" in kinds or kinds == "hhh"))), dict(tiers=tiers)))
     return cs
